@@ -4,10 +4,11 @@ Spec: spec/ClientMux (IdGen: the id generator with the real wrap rule; ClientMux
 idle -> cas -> add -> pre -> sel -> reg1 -> reg2 -> send -> wait -> unreg1 -> unreg2 -> post -> done, sender, a peer that
 answers any id any number of times in any order (duplicates, ids nobody waits for, id 0, garbage), one receiver
 goroutine per packet: lookup, then rendezvous with the waiting caller or give up).
-MC: MC_ids (3 callers, every start value of a 10-value id space: wrap, overflow and zero skipping under every
-interleaving), MC_mux2 (2 callers, every interleaving, 3 peer packets incl. a foreign id), MC_mux3 (3 callers,
-commuting local steps run to completion, 2 packets incl. id 0): ReplyMatches, IdNonZero, IdsDistinct,
-OnePacketOneCaller, accounting, LateReplyHarmless, OnlyAddressee.
+MC (id space -5..4): MC_ids (3 callers, no peer, every interleaving of the generator and the counters across the wrap
+point and across zero; thorough: every start value), MC_mux2 (2 callers, every interleaving of callers, sender, peer and
+receivers, 2 peer packets of any kind; thorough 4), MC_mux3 (3 callers, commuting local steps run to completion, 1 packet;
+thorough 3 incl. an id not yet drawn): ReplyMatches, IdNonZero, IdsDistinct, OnePacketOneCaller, accounting,
+LateReplyHarmless, OnlyAddressee.
 Binding B1: the real ServantProxy on a direct endpoint <-> scripted TCP peer (harness/cmd/muxdrive); hooks in
 doInvoke / Recv, transport hooks, the counter placed just below the wrap point / below zero through VerifSetMsgID,
 payloads carry the caller identity and every peer packet a serial.  TLC validates every run against
@@ -66,7 +67,7 @@ def split(path):
     return traces
 
 
-def drive(ctx, exe, classes, per, maxk, shards, tag):
+def drive(ctx, exe, classes, per, maxk, shards, tag, selftest=True):
     """Runs the scenario plan in `shards` processes (the id counter and the hooks are process-wide)."""
     def one(i):
         out = os.path.join(ctx.work, "%s-%d.ndjson" % (tag, i))
@@ -89,7 +90,7 @@ def drive(ctx, exe, classes, per, maxk, shards, tag):
             raise Inconclusive("malformed trace (scenario %s)" % (t[0] if t else None))
     silent = [h for h in HOOKS if hits.get(h, 0) == 0 and (h != "mux.recv.bad" or "garbage" in classes or "foreign" in classes)
               and (h != "mux.recv.gaveup" or "giveup" in classes)]
-    if silent:
+    if silent and selftest:
         raise Inconclusive("hook self-test: hook point(s) never fired: %s (hooks patch C08-hooks.diff not applied?)" % silent)
     return traces, hits
 
@@ -112,7 +113,7 @@ def cfg_text(nc, invariants):
 
 def nc_of(t):
     k = t[0]["k"]
-    return 8 if k <= 8 else 32 if k <= 32 else 128
+    return 8 if k <= 8 else 32 if k <= 32 else 128 if k <= 128 else 512
 
 
 def validate(ctx, traces, invariants, name, groups=4, timeout=1500, singly=False):
@@ -121,9 +122,9 @@ def validate(ctx, traces, invariants, name, groups=4, timeout=1500, singly=False
     buckets = {}
     for i, t in enumerate(traces):
         nc = nc_of(t)
-        if t[0]["k"] > 128:
+        if t[0]["k"] > 512:
             raise Inconclusive("scenario with %d callers exceeds the trace configuration" % t[0]["k"])
-        n = len(traces) if singly else {8: 1, 32: groups, 128: max(groups, 6)}[nc]
+        n = len(traces) if singly else {8: 1, 32: groups, 128: max(groups, 6), 512: 4}[nc]
         buckets.setdefault((nc, i % n), []).append(t)
 
     def val(item):
@@ -265,13 +266,16 @@ def run(ctx):
         "covered by MC_ids (3 callers, no peer) and MC_mux2 (2 callers)",
     ]
     quick = ctx.quick
-    mc_cfgs = ["ids", "mux2", "mux3"] if quick else ["ids", "mux2_t", "mux3_t"]
+    mc_cfgs = ["ids", "mux2", "mux3"] if quick else ["ids_t", "mux2_t", "mux3_t"]
     with ThreadPoolExecutor(max_workers=3) as mcex:
         futs = start_mc(ctx, mcex, mc_cfgs, workers=ctx.pick(3, 4), timeout=ctx.pick(300, 840))
         exe = gobuild.build(ctx, "muxdrive")
-        per, maxk, shards = ctx.pick(5, 50), ctx.pick(32, 128), ctx.pick(8, 10)
+        per, maxk, shards = ctx.pick(10, 100), ctx.pick(32, 128), ctx.pick(8, 10)
         ctx.log("harness built")
         traces, hits = drive(ctx, exe, C08_CLASSES, per, maxk, shards, "c08")
+        if not quick:       # a few runs with 512 callers in flight at once on one proxy
+            crowd, _ = drive(ctx, exe, ["crowd"], 4, 512, 4, "c08crowd", selftest=False)
+            traces += crowd
         ctx.log("%d runs recorded" % len(traces))
         recs, sets, orc = id_oracle(ctx, exe)
         failures, st, _ = validate(ctx, traces, C08_INV, "c08", groups=ctx.pick(3, 6))
